@@ -46,7 +46,7 @@ func init() {
 		},
 		Cases: func(tier string, seed uint64) int {
 			if tier == "thorough" {
-				return 6000000
+				return 30000000
 			}
 			return 120000
 		},
